@@ -47,7 +47,7 @@ NOT_YET = {}
 def main():
     checks = []
     BIG = {"C01", "C02", "C03", "C04", "C05", "C06", "C09", "C10", "C11", "C12", "C14", "C15", "C16"}
-    TYPES = {"C01", "C02", "C03", "C04", "C05", "C06", "C08", "C11", "C12"}
+    TYPES = {"C01", "C02", "C03", "C04", "C05", "C06", "C08", "C09", "C11", "C12"}
     SWEEP = {"C01", "C02", "C03", "C04", "C05", "C06", "C08"}
     FUZZ = {"C01", "C02", "C03", "C05", "C06", "C08", "C10", "C12"}
     for pid, (tech, text, ref) in sorted(CHECKS.items()):
